@@ -1,4 +1,5 @@
-"""C06 -- parallel_sort: the 'already sorted?' probe covers every adjacent pair; quicksort split; dispatch."""
+"""C06 -- parallel_reduce / parallel_deterministic_reduce (fold_tree, lazy and eager body split, joins, dispatch of all overloads), parallel_scan (two-pass bookkeeping
+with a ghost prefix model), parallel_sort (sortedness probe, split_range partition, dispatch)."""
 import os
 import sys
 import re
@@ -186,7 +187,7 @@ def member_order(ctext, names, cname):
     cs = class_scope(ctext)
     pos = {}
     for n in names:
-        hits = [m.start() for m in re.finditer(r'(?<![\w.>])%s\s*(?:\[[^\]]*\])?\s*;' % n, cs)]
+        hits = [m.start() for m in re.finditer(r'(?<![\w.>])%s\s*(?:\[[^\]]*\])?\s*(?:=[^;()]*)?;' % n, cs)]
         if len(hits) != 1:
             raise ExtractionBreak('%s: member %s declared %d times' % (cname, n, len(hits)))
         pos[n] = hits[0]
@@ -197,7 +198,7 @@ def nsdmi(ctext, names):
     """default member initialisers `name{expr};` of the class"""
     out = {}
     for n in names:
-        m = re.search(r'(?<![\w.>])%s\s*\{([^{}]*)\}\s*;' % n, ctext)
+        m = re.search(r'(?<![\w.>])%s\s*\{([^{}]*)\}\s*;' % n, ctext) or re.search(r'(?<![\w.>])%s\s*=\s*([^;{}()]*);' % n, class_scope(ctext))
         if m:
             out[n] = m.group(1).strip()
     return out
@@ -686,6 +687,317 @@ def extract_split_range(ctx, sliced, fired):
     fired['quick_sort_range'] = rw.fired
 
 
+PSC = 'include/oneapi/tbb/parallel_scan.h'
+
+
+def release_finalize(rw, cls_sig, cname, parent_t, sliced, out):
+    """the release_parent()/finalize() pair that each of the four scan task classes has (same text, different types)"""
+    s = slice_block(PSC, r'\w+\* release_parent\(\)', within=cls_sig)
+    sliced.append('%s:%d %s::release_parent' % (PSC, s.line, cname))
+    t = '%s* %s_release_parent(struct %s* self) ' % (parent_t, cname, cname) + body_of(s.text)
+    t = rw.sub(t, r'call_itt_task_notify\(releasing, m_parent\);', 'RG_NOP();', 0, name='ITT notification -> RG_NOP')
+    t = rw.sub(t, r'auto parent = m_parent;', '%s* parent = m_parent;' % parent_t, 0, name='auto')
+    t = rw.atomics(t, ['ref_count'], 0)
+    t = rw.sub(t, r'(?<![\w.>])m_wait_context\.release\(\);', 'WAIT_RELEASE((*self->m_wait_context));', 0, name='reference member + callee stub (wait_context::release)')
+    t = rw.sub(t, r'(?<![\w.>])m_parent\b', 'self->m_parent', 0, name='field')
+    t = rw.number_sites(t, 'rel', by_kind=True)
+    out.append(t)
+    s = slice_block(PSC, r'\w+\* finalize\(\s*const execution_data& ed\s*\)', within=cls_sig)
+    sliced.append('%s:%d %s::finalize' % (PSC, s.line, cname))
+    t = '%s* %s_finalize(struct %s* self, const execution_data* ed) ' % (parent_t, cname, cname) + body_of(s.text)
+    t = rw.sub(t, r'\b\w+\* next_task = release_parent\(\);', '%s* next_task = %s_release_parent(self);' % (parent_t, cname), 0, name='method')
+    t = rw.sub(t, r'(?<![\w.>])m_allocator\.delete_object<\w+>\(this, ed\);', 'DELETE_OBJECT(self->m_allocator, self, ed);', 0, name='callee stub (small_object_allocator::delete_object: destroys and frees this task)')
+    out.append(t)
+
+
+def extract_scan(ctx, sliced, fired):
+    """parallel_scan.h: final_sum, sum_node, finish_scan, start_scan, lambda_scan_body"""
+    rw = Rewriter('parallel_scan')
+    out = []
+    FS, SN, FN, SS = (r'struct final_sum : public task \{', r'struct sum_node : public task \{', r'struct finish_scan : public task \{', r'struct start_scan : public task \{')
+    protos = ['struct final_sum; struct sum_node; struct finish_scan; struct start_scan;']
+    # ------------------------------------------------------------------ final_sum
+    fcls = slice_block(PSC, FS)
+    FMEM = ['m_body', 'm_range', 'm_stuff_last', 'm_wait_context', 'm_parent', 'm_allocator']
+    forder = member_order(fcls.text, FMEM, 'final_sum')
+    fdef = nsdmi(fcls.text, ['m_parent'])
+
+    def ffields(t):
+        t = rw.sub(t, r'(?<![\w.>])m_range\.begin\(\)', '(&self->m_range)', 0, name='aligned_space<Range>::begin()')
+        t = rw.sub(t, r'(?<![\w.>])m_wait_context\b', '(*self->m_wait_context)', 0, name='reference member')
+        return rw.fields(t, ['m_body', 'm_range', 'm_stuff_last', 'm_parent', 'm_allocator'], 0)
+    s = slice_ctor(PSC, r'final_sum\( Body& body, wait_context& w_o, small_object_allocator& alloc \)', FS)
+    sliced.append('%s:%d final_sum(Body&, wait_context&, alloc)' % (PSC, s.line))
+    t = ctor_c(rw, s, 'final_sum_ctor_body(struct final_sum* self, Body* body, wait_context* w_o, small_object_allocator* alloc)', forder, defaults=fdef, cname='final_sum')
+    t = rw.sub(t, r'poison_pointer\(m_stuff_last\);', 'RG_NOP();', 0, name='poison_pointer (no-op in release builds) -> RG_NOP')
+    t = common_calls(rw, t)
+    t = refs(rw, t, ['body', 'w_o', 'alloc'])
+    out.append(t)
+    s = slice_ctor(PSC, r'final_sum\( final_sum& sum, small_object_allocator& alloc \)', FS)
+    sliced.append('%s:%d final_sum(final_sum&, alloc)' % (PSC, s.line))
+    t = ctor_c(rw, s, 'final_sum_ctor_split(struct final_sum* self, struct final_sum* sum, small_object_allocator* alloc)', forder, defaults=fdef, cname='final_sum')
+    t = rw.sub(t, r'poison_pointer\(m_stuff_last\);', 'RG_NOP();', 0, name='poison_pointer (no-op in release builds) -> RG_NOP')
+    t = rw.sub(t, r'\bsum\.m_wait_context\b', '(*sum->m_wait_context)', 0, name='reference member of a reference parameter')
+    t = rw.sub(t, r'\bsum\.', 'sum->', 0, name='ref-param')
+    t = common_calls(rw, t)
+    t = refs(rw, t, ['alloc'])
+    out.append(t)
+    s = slice_block(PSC, r'void finish_construction\( sum_node_type\* parent, const Range& range, Body\* stuff_last \)', within=FS)
+    sliced.append('%s:%d final_sum::finish_construction' % (PSC, s.line))
+    t = 'void final_sum_finish_construction(struct final_sum* self, struct sum_node* parent, const Range* range, Body* stuff_last) ' + body_of(s.text)
+    t = rw.sub(t, r'new\( m_range\.begin\(\) \) Range\(range\);', 'Range_copy_ctor(&self->m_range, range);', 0, name='placement-new copy of the range')
+    t = ffields(t)
+    t = rw.asserts(t, 0)
+    out.append(t)
+    release_finalize(rw, FS, 'final_sum', 'struct sum_node', sliced, out)
+    s = slice_block(PSC, r'task\* execute\(execution_data& ed\) override', within=FS)
+    sliced.append('%s:%d final_sum::execute' % (PSC, s.line))
+    t = 'task* final_sum_execute(struct final_sum* self, execution_data* ed) ' + body_of(s.text)
+    t = rw.sub(t, r'(?<![\w.>])m_body\( \*m_range\.begin\(\), (final|pre)_scan_tag\(\) \);', r'BODY_SCAN(self->m_body, *(&self->m_range), \1_scan_tag);', 0, name='body(range, tag()) -> BODY_SCAN(body, range, tag)')
+    t = rw.sub(t, r'(?<![\w.>])m_stuff_last->assign\(m_body\);', 'Body_assign(self->m_stuff_last, &self->m_body);', 0, name='Body::assign')
+    t = rw.sub(t, r'return finalize\(ed\);', 'return (task*)final_sum_finalize(self, ed);', 0, name='method')
+    t = ffields(t)
+    out.append(t)
+    s = slice_block(PSC, r'task\* cancel\(execution_data& ed\) override', within=FS)
+    t = 'task* final_sum_cancel(struct final_sum* self, execution_data* ed) ' + body_of(s.text)
+    t = rw.sub(t, r'return finalize\(ed\);', 'return (task*)final_sum_finalize(self, ed);', 0, name='method')
+    out.append(t)
+    s = slice_block(PSC, r'void reverse_join\( final_sum& a \)', within=FS)
+    sliced.append('%s:%d final_sum::reverse_join(final_sum&)' % (PSC, s.line))
+    t = 'void final_sum_reverse_join(struct final_sum* self, struct final_sum* a) ' + body_of(s.text)
+    t = rw.sub(t, r'(?<![\w.>])m_body\.reverse_join\(a\.m_body\);', 'Body_reverse_join(&self->m_body, &a->m_body);', 0, name='Body::reverse_join (this.reverse_join(a): a lies to the LEFT of this)')
+    out.append(t)
+    s = slice_block(PSC, r'void reverse_join\( Body& body \)', within=FS)
+    t = 'void final_sum_reverse_join_body(struct final_sum* self, Body* body) ' + body_of(s.text)
+    t = rw.sub(t, r'(?<![\w.>])m_body\.reverse_join\(body\);', 'Body_reverse_join(&self->m_body, body);', 0, name='Body::reverse_join')
+    out.append(t)
+    s = slice_block(PSC, r'void assign_to\( Body& body \)', within=FS)
+    t = 'void final_sum_assign_to(struct final_sum* self, Body* body) ' + body_of(s.text)
+    t = rw.sub(t, r'\bbody\.assign\(m_body\);', 'Body_assign(body, &self->m_body);', 0, name='Body::assign')
+    out.append(t)
+    s = slice_block(PSC, r'void operator\(\)\( const Range& r, Tag tag \)', within=FS)
+    sliced.append('%s:%d final_sum::operator()' % (PSC, s.line))
+    t = 'void final_sum_call(struct final_sum* self, const Range* r, int tag) ' + body_of(s.text)
+    t = rw.sub(t, r'(?<![\w.>])m_body\( r, tag \);', 'BODY_SCAN(self->m_body, *r, tag);', 0, name='body(range, tag)')
+    out.append(t)
+    # ------------------------------------------------------------------ sum_node
+    ncls = slice_block(PSC, SN)
+    NMEM = ['m_incoming', 'm_body', 'm_stuff_last', 'm_left_sum', 'm_left', 'm_right', 'm_left_is_final', 'm_range', 'm_wait_context', 'm_parent', 'm_allocator', 'ref_count']
+    norder = member_order(ncls.text, NMEM, 'sum_node')
+
+    def nfields(t):
+        t = rw.sub(t, r'(?<![\w.>])m_wait_context\b', '(*self->m_wait_context)', 0, name='reference member')
+        return rw.fields(t, [m for m in NMEM if m != 'm_wait_context'], 0)
+    s = slice_ctor(PSC, r'sum_node\( const Range range, bool left_is_final_, sum_node\* parent, wait_context& w_o, small_object_allocator& alloc \)', SN)
+    sliced.append('%s:%d sum_node constructor' % (PSC, s.line))
+    t = ctor_c(rw, s, 'sum_node_ctor(struct sum_node* self, const Range range, bool left_is_final_, struct sum_node* parent, wait_context* w_o, small_object_allocator* alloc)', norder, defaults=nsdmi(ncls.text, ['ref_count']), cname='sum_node')
+    t = rw.sub(t, r'poison_pointer\(m_(?:body|incoming)\);', 'RG_NOP();', 0, name='poison_pointer (no-op in release builds) -> RG_NOP')
+    t = rw.atomics(t, ['ref_count'], 0)
+    t = refs(rw, t, ['w_o', 'alloc'])
+    b = cxx2c.mask(t).find('{')
+    t = t[:b] + rw.fields(t[b:], ['m_parent'], 0)
+    out.append(t)
+    release_finalize(rw, SN, 'sum_node', 'struct sum_node', sliced, out)
+    s = slice_block(PSC, r'void prepare_for_execution\(final_sum_type& body, final_sum_type\* incoming, Body \*stuff_last\)', within=SN)
+    sliced.append('%s:%d sum_node::prepare_for_execution' % (PSC, s.line))
+    t = 'void sum_node_prepare_for_execution(struct sum_node* self, struct final_sum* body, struct final_sum* incoming, Body* stuff_last) ' + body_of(s.text)
+    t = rw.sub(t, r'\bthis->', 'self->', 0, name='this->')
+    t = refs(rw, t, ['body'])
+    out.append(t)
+    s = slice_block(PSC, r'task\* create_child\( const Range& range, final_sum_type& body, sum_node\* child, final_sum_type\* incoming, Body\* stuff_last \)', within=SN)
+    sliced.append('%s:%d sum_node::create_child' % (PSC, s.line))
+    t = 'task* sum_node_create_child(struct sum_node* self, const Range* range, struct final_sum* body, struct sum_node* child, struct final_sum* incoming, Body* stuff_last) ' + body_of(s.text)
+    t = rw.sub(t, r'(?s)__TBB_ASSERT\( is_poisoned\(child->m_body\) && is_poisoned\(child->m_incoming\), nullptr \);', 'RG_NOP();', 0, name='poison check (debug only) -> RG_NOP')
+    t = rw.sub(t, r'child->prepare_for_execution\(body, incoming, stuff_last\);', 'sum_node_prepare_for_execution(child, &body, incoming, stuff_last);', 0, name='method')
+    t = rw.sub(t, r'\bbody\.finish_construction\(this, range, stuff_last\);', 'final_sum_finish_construction(&body, self, &range, stuff_last);', 0, name='method')
+    t = rw.sub(t, r'return child;', 'return (task*)child;', 0, name='upcast')
+    t = rw.sub(t, r'return &body;', 'return (task*)&body;', 0, name='upcast')
+    t = refs(rw, t, ['range', 'body'])
+    out.append(t)
+    s = slice_block(PSC, r'task\* execute\(execution_data& ed\) override', within=SN)
+    sliced.append('%s:%d sum_node::execute' % (PSC, s.line))
+    t = 'task* sum_node_execute(struct sum_node* self, execution_data* ed) ' + body_of(s.text)
+    t = rw.sub(t, r'(?<![\w.>])(m_\w+)->reverse_join\(\s*\*(m_\w+)\s*\);', r'final_sum_reverse_join(\1, &*\2);', 0, name='final_sum::reverse_join(final_sum&): method + reference argument')
+
+    def cc(mm, a):
+        if len(a) != 5:
+            raise ExtractionBreak('sum_node::execute: create_child with %d arguments' % len(a))
+        tm = re.fullmatch(r'Range\(\s*(\w+)\s*,\s*split\(\)\s*\)', a[0])
+        a0 = 'RANGE_SPLIT_TEMP(%s)' % tm.group(1) if tm else '&(%s)' % a[0]
+        return 'sum_node_create_child(self, %s, &(%s), %s, %s, %s)' % (a0, a[1], a[2], a[3], a[4])
+    t = rw.call(t, r'\bthis->create_child', cc, 0, name='method create_child: reference arguments -> addresses, temporary Range(r, split()) -> RANGE_SPLIT_TEMP(r)')
+    t = rw.sub(t, r'(?<![\w.>])ref_count = ([^;]*);', r'ATOMIC_STORE(ref_count, \1);', 0, name='atomic = (store)')
+    t = rw.sub(t, r'spawn\(\*right_child, \*ed\.context\);', 'SPAWN(right_child, ed->context);', 0, name='callee stub (spawn)')
+    t = rw.sub(t, r'return finalize\(ed\);', 'return (task*)sum_node_finalize(self, ed);', 0, name='method')
+    t = nfields(t)
+    t = rw.number_sites(t, 'snx', by_kind=True)
+    out.append(t)
+    s = slice_block(PSC, r'task\* cancel\(execution_data& ed\) override', within=SN)
+    sliced.append('%s:%d sum_node::cancel' % (PSC, s.line))
+    t = 'task* sum_node_cancel(struct sum_node* self, execution_data* ed) ' + body_of(s.text)
+    t = rw.sub(t, r'return finalize\(ed\);', 'return (task*)sum_node_finalize(self, ed);', 0, name='method')
+    out.append(t)
+    # ------------------------------------------------------------------ finish_scan
+    qcls = slice_block(PSC, FN)
+    QMEM = ['m_sum_slot', 'm_return_slot', 'm_allocator', 'm_right_zombie', 'm_result', 'ref_count', 'm_parent', 'm_wait_context']
+    qorder = member_order(qcls.text, QMEM, 'finish_scan')
+    s = slice_ctor(PSC, r'finish_scan\(sum_node_type\*& return_slot, final_sum_type\*\* sum, sum_node_type& result_, finish_scan\* parent, wait_context& w_o, small_object_allocator& alloc\)', FN)
+    sliced.append('%s:%d finish_scan constructor' % (PSC, s.line))
+    t = ctor_c(rw, s, 'finish_scan_ctor(struct finish_scan* self, struct sum_node** return_slot, struct final_sum** sum, struct sum_node* result_, struct finish_scan* parent, wait_context* w_o, small_object_allocator* alloc)',
+               qorder, defaults=nsdmi(qcls.text, ['ref_count']), cname='finish_scan')
+    t = rw.sub(t, r'__TBB_ASSERT\( !m_return_slot, nullptr \);', 'VERIF_ASSERT(!(*self->m_return_slot), "!m_return_slot");', 0, name='assert on a reference member')
+    t = refs(rw, t, ['return_slot', 'result_', 'w_o', 'alloc'])
+    out.append(t)
+    release_finalize(rw, FN, 'finish_scan', 'struct finish_scan', sliced, out)
+    s = slice_block(PSC, r'task\* execute\(execution_data& ed\) override', within=FN)
+    sliced.append('%s:%d finish_scan::execute' % (PSC, s.line))
+    t = 'task* finish_scan_execute(struct finish_scan* self, execution_data* ed) ' + body_of(s.text)
+    t = rw.sub(t, r'(?s)__TBB_ASSERT\( m_result\.ref_count\.load\(\) == static_cast<unsigned int>\(\(m_result\.m_left!=nullptr\)\+\(m_result\.m_right!=nullptr\)\), nullptr \);', 'RG_NOP();', 0,
+               name='debug assertion on the result node\'s child count -> RG_NOP')
+    t = rw.atomics(t, ['m_right_zombie'], 0)
+    t = rw.sub(t, r'(?P<x>\(\*\w+\)|[\w.]+)->reverse_join\(\s*\*(?P<y>[^;]+?)\s*\);', r'final_sum_reverse_join(\g<x>, &*\g<y>);', 0, name='final_sum::reverse_join(final_sum&): method + reference argument')
+    t = rw.sub(t, r'(?<![\w.>])m_result\.self_destroy\(ed\);', 'SUM_NODE_SELF_DESTROY(m_result, ed);', 0, name='callee stub (sum_node::self_destroy: frees the node)')
+    t = rw.sub(t, r'\bright_zombie->self_destroy\(ed\);', 'FINAL_SUM_SELF_DESTROY(*right_zombie, ed);', 0, name='callee stub (final_sum::self_destroy: frees the body task)')
+    t = rw.sub(t, r'final_sum_type\*', 'struct final_sum*', 0, name='type alias')
+    t = rw.sub(t, r'return finalize\(ed\);', 'return (task*)finish_scan_finalize(self, ed);', 0, name='method')
+    t = rw.sub(t, r'(?<![\w.>])m_return_slot\b', '(*self->m_return_slot)', 0, name='reference member m_return_slot -> (*self->m_return_slot)')
+    t = rw.sub(t, r'(?<![\w.>])m_result\b', '(*self->m_result)', 0, name='reference member m_result -> (*self->m_result)')
+    t = rw.fields(t, ['m_sum_slot', 'm_right_zombie', 'm_parent'], 0)
+    t = rw.asserts(t, 0)
+    t = rw.number_sites(t, 'fin', by_kind=True)
+    out.append(t)
+    s = slice_block(PSC, r'task\* cancel\(execution_data& ed\) override', within=FN)
+    sliced.append('%s:%d finish_scan::cancel' % (PSC, s.line))
+    t = 'task* finish_scan_cancel(struct finish_scan* self, execution_data* ed) ' + body_of(s.text)
+    t = rw.sub(t, r'return finalize\(ed\);', 'return (task*)finish_scan_finalize(self, ed);', 0, name='method')
+    out.append(t)
+    # ------------------------------------------------------------------ start_scan
+    scls = slice_block(PSC, SS)
+    SMEM = ['m_return_slot', 'm_range', 'm_body', 'm_partition', 'm_sum_slot', 'm_is_final', 'm_is_right_child', 'm_parent', 'm_allocator', 'm_wait_context']
+    sorder = member_order(scls.text, SMEM, 'start_scan')
+    s = slice_ctor(PSC, r'start_scan\( sum_node_type\*& return_slot, start_scan& parent, small_object_allocator& alloc \)', SS)
+    sliced.append('%s:%d start_scan splitting constructor' % (PSC, s.line))
+    t = ctor_c(rw, s, 'start_scan_ctor_split(struct start_scan* self, struct sum_node** return_slot, struct start_scan* parent, small_object_allocator* alloc)', sorder, cname='start_scan')
+    t = rw.sub(t, r'__TBB_ASSERT\( !m_return_slot, nullptr \);', 'VERIF_ASSERT(!(*self->m_return_slot), "!m_return_slot");', 0, name='assert on a reference_wrapper member')
+    t = rw.sub(t, r'\bparent\.m_(body|wait_context|return_slot)\b', r'(*parent->m_\1)', 0, name='reference(-wrapper) member of a reference parameter')
+    t = rw.sub(t, r'\bparent\.', 'parent->', 0, name='ref-param')
+    t = common_calls(rw, t)
+    t = refs(rw, t, ['return_slot', 'alloc'])
+    out.append(t)
+    s = slice_ctor(PSC, r'start_scan\( sum_node_type\*& return_slot, const Range& range, final_sum_type& body, const Partitioner& partitioner, wait_context& w_o, small_object_allocator& alloc \)', SS)
+    sliced.append('%s:%d start_scan root constructor' % (PSC, s.line))
+    t = ctor_c(rw, s, 'start_scan_ctor_root(struct start_scan* self, struct sum_node** return_slot, const Range* range, struct final_sum* body, const Partitioner* partitioner, wait_context* w_o, small_object_allocator* alloc)', sorder, cname='start_scan')
+    t = rw.sub(t, r'__TBB_ASSERT\( !m_return_slot, nullptr \);', 'VERIF_ASSERT(!(*self->m_return_slot), "!m_return_slot");', 0, name='assert on a reference_wrapper member')
+    t = refs(rw, t, ['return_slot', 'range', 'body', 'partitioner', 'w_o', 'alloc'])
+    out.append(t)
+    release_finalize(rw, SS, 'start_scan', 'struct finish_scan', sliced, out)
+    s = slice_block(PSC, r'task\* start_scan<Range,Body,Partitioner>::execute\( execution_data& ed \)')
+    sliced.append('%s:%d start_scan::execute' % (PSC, s.line))
+    t = 'task* start_scan_execute(struct start_scan* self, execution_data* ed) ' + body_of(s.text)
+    t = rw.sub(t, r'\bis_stolen\(ed\)', 'STUB_is_stolen(ed)', 0, name='callee stub')
+    t = rw.sub(t, r'&m_body\.get\(\)', '&(*self->m_body)', 0, name='reference_wrapper::get()')
+    t = rw.atomics(t, ['m_right_zombie'], 0)
+    t = rw.sub(t, r'(?<![\w.>])m_body = \*right_zombie;', 'REBIND(self->m_body, *right_zombie);', 0, name='reference_wrapper rebind')
+    t = rw.sub(t, r'(?<![\w.>])m_partition\.should_execute_range\(ed\)', 'Partition_should_execute_range(&self->m_partition, ed)', 0, name='member-object method (stub)')
+    t = rw.sub(t, r'(?<![\w.>])m_range\.is_divisible\(\)', 'Range_is_divisible(&self->m_range)', 0, name='Range::is_divisible')
+    t = rw.sub(t, r'(?<![\w.>])m_body\(m_range, (final|pre)_scan_tag\(\)\);', r'final_sum_call(self->m_body, &self->m_range, \1_scan_tag);', 0, name='reference_wrapper call -> final_sum::operator()')
+    t = rw.sub(t, r'\*m_sum_slot = &\(\*self->m_body\);', '*self->m_sum_slot = &(*self->m_body);', 0, name='field')
+    t = rw.sub(t, r'next_task = finalize\(ed\);', 'next_task = (task*)start_scan_finalize(self, ed);', 0, name='method')
+    t = rw.sub(t, r'\bauto result = ', 'struct sum_node* result = ', 0, name='auto')
+    t = rw.sub(t, r'\bauto new_parent = ', 'struct finish_scan* new_parent = ', 0, name='auto')
+    t = rw.sub(t, r'\bauto& right_child = \*alloc\.new_object<start_scan>', 'struct start_scan* right_child_p = alloc.new_object<start_scan>', 0, name='auto& x = *p -> pointer')
+    t = rw.sub(t, r'\bfinal_sum_type\* right_zombie\b', 'struct final_sum* right_zombie', 0, name='type alias')
+    t = rw.sub(t, r'(?<![\w.>])m_parent->m_result\b', '(*m_parent->m_result)', 0, name='reference member of the parent')
+
+    def newobj(mm, a):
+        return 'NEW_%s_%d(alloc%s)' % (mm.group(1), len(a), ''.join(', ' + x for x in a))
+    t = rw.call(t, r'\balloc\.new_object<(sum_node_type|finish_pass1_type|start_scan|final_sum_type)>', newobj, 0, name='alloc.new_object<T>(args) -> NEW_T(alloc, args): allocate, then the sliced constructor')
+    t = rw.sub(t, r'spawn\(right_child, \*ed\.context\);', 'SPAWN(right_child_p, ed->context);', 0, name='callee stub (spawn)')
+    t = rw.sub(t, r'(?<![\w.>])m_return_slot = result->m_left;', 'REBIND(self->m_return_slot, result->m_left);', 0, name='reference_wrapper rebind')
+    t = rw.sub(t, r'next_task = this;', 'next_task = (task*)self;', 0, name='this')
+    t = rw.sub(t, r'(?<![\w.>])m_return_slot\b', '(*self->m_return_slot)', 0, name='reference_wrapper member m_return_slot -> (*self->m_return_slot)')
+    t = rw.sub(t, r'(?<![\w.>])m_wait_context\b', '(*self->m_wait_context)', 0, name='reference member')
+    t = rw.sub(t, r'(?<![\w.>])m_body\b', '(*self->m_body)', 0, name='reference_wrapper member')
+    t = common_calls(rw, t)
+    t = rw.fields(t, ['m_range', 'm_partition', 'm_sum_slot', 'm_is_final', 'm_is_right_child', 'm_parent', 'm_allocator'], 0)
+    t = rw.asserts(t, 0)
+    t = rw.number_sites(t, 'ssx', by_kind=True)
+    out.append(t)
+    s = slice_block(PSC, r'task\* cancel\( execution_data& ed \) override', within=SS)
+    sliced.append('%s:%d start_scan::cancel' % (PSC, s.line))
+    t = 'task* start_scan_cancel(struct start_scan* self, execution_data* ed) ' + body_of(s.text)
+    t = rw.sub(t, r'return finalize\(ed\);', 'return (task*)start_scan_finalize(self, ed);', 0, name='method')
+    out.append(t)
+    # ------------------------------------------------------------------ start_scan::run (pass 1, then pass 2 or the single-sweep shortcut)
+    s = slice_block(PSC, r'static void run\( const Range& range, Body& body, const Partitioner& partitioner \)', within=SS)
+    sliced.append('%s:%d start_scan::run' % (PSC, s.line))
+    t = 'void start_scan_run(const Range* range, Body* body, const Partitioner* partitioner) ' + body_of(s.text)
+    t = rw.sub(t, r'\brange\.empty\(\)', 'Range_empty(range)', 0, name='Range::empty()')
+    t = rw.sub(t, r'task_group_context context\(PARALLEL_SCAN\);', 'task_group_context context; CONTEXT_CTOR(context, PARALLEL_SCAN);', 0, name='local context object + constructor')
+    t = rw.sub(t, r'using start_pass1_type = start_scan<Range,Body,Partitioner>;', 'RG_NOP();', 0, name='type alias declaration -> RG_NOP')
+    t = rw.sub(t, r'sum_node_type\* root = nullptr;', 'struct sum_node* root = nullptr;', 0, name='type alias')
+    t = rw.sub(t, r'wait_context w_ctx\{1\};', 'wait_context w_ctx; WAIT_CTOR(w_ctx, 1);', 0, name='local wait_context{1}')
+    t = common_calls(rw, t)
+    t = rw.sub(t, r'auto& temp_body = \*alloc\.new_object<final_sum_type>', 'struct final_sum* temp_body_p = alloc.new_object<final_sum_type>', 0, name='auto& x = *p -> pointer')
+    t = rw.sub(t, r'auto& pass1 = \*alloc\.new_object<start_pass1_type>', 'struct start_scan* pass1_p = alloc.new_object<start_pass1_type>', 0, name='auto& x = *p -> pointer')
+    t = rw.sub(t, r'\btemp_body\.reverse_join\(body\);', 'final_sum_reverse_join_body(temp_body_p, &body);', 0, name='method + reference argument')
+    t = rw.sub(t, r'\broot->prepare_for_execution\(temp_body, nullptr, &body\);', 'sum_node_prepare_for_execution(root, &temp_body, nullptr, &body);', 0, name='method + reference argument')
+    t = rw.sub(t, r'\broot->prepare_for_execution\(([^,;]*), ([^;]*)\);', r'sum_node_prepare_for_execution(root, &\1, \2);', 0, name='method + reference argument')
+    t = rw.sub(t, r'\bw_ctx\.reserve\(\);', 'WAIT_RESERVE(w_ctx);', 0, name='callee stub (wait_context::reserve)')
+    t = rw.sub(t, r'\btemp_body\.assign_to\(body\);', 'final_sum_assign_to(temp_body_p, &body);', 0, name='method + reference argument')
+    t = rw.sub(t, r'\btemp_body\.finish_construction\(nullptr, range, nullptr\);', 'final_sum_finish_construction(temp_body_p, nullptr, &range, nullptr);', 0, name='method + reference argument')
+    t = rw.sub(t, r'\balloc\.delete_object<final_sum_type>\(&temp_body\);', 'DELETE_TEMP_BODY(alloc, &temp_body);', 0, name='callee stub (delete_object)')
+    t = rw.call(t, r'\balloc\.new_object<(start_pass1_type|final_sum_type)>', newobj, 0, name='alloc.new_object<T>(args) -> NEW_T_<argc>(alloc, args): allocate, then the sliced constructor')
+    t = rw.sub(t, r'execute_and_wait\(([^;]*)\);', r'EXECUTE_AND_WAIT(\1);', 0, name='callee stub (r1::execute_and_wait)')
+    t = rw.sub(t, r'(?<![\w.>])temp_body\b', '(*temp_body_p)', 0, name='local reference -> (*pointer)')
+    t = rw.sub(t, r'(?<![\w.>])pass1\b', '(*pass1_p)', 0, name='local reference -> (*pointer)')
+    t = refs(rw, t, ['range', 'body', 'partitioner'])
+    out.append(t)
+    common.write(ctx, 'scan.inc', rw.std('\n'.join(out)) + '\n')
+    fired['parallel_scan'] = rw.fired
+    # ------------------------------------------------------------------ lambda_scan_body
+    lrw = Rewriter('lambda_scan_body')
+    LS = r'class lambda_scan_body \{'
+    lcls = slice_block(PSC, LS)
+    LMEM = ['m_sum_slot', 'identity_element', 'm_scan', 'm_reverse_join']
+    lorder = member_order(lcls.text, LMEM, 'lambda_scan_body')
+    lout = []
+
+    def lfields(t):
+        t = lrw.sub(t, r'\b(a|b)\.(identity_element|m_scan|m_reverse_join)\b', r'(*\1->\2)', 0, name='reference member of a reference parameter')
+        t = lrw.sub(t, r'\b(a|b)\.m_sum_slot\b', r'\1->m_sum_slot', 0, name='ref-param')
+        t = lrw.sub(t, r'(?<![\w.>])(identity_element|m_scan|m_reverse_join)\b', r'(*self->\1)', 0, name='reference member m -> (*self->m)')
+        t = lrw.sub(t, r'(?<![\w.>])m_sum_slot\b', 'self->m_sum_slot', 0, name='field')
+
+        def inv(mm, a):
+            return 'INVOKE%d(%s)' % (len(a), ', '.join(a))
+        return lrw.call(t, r'\btbb::detail::invoke', inv, 0, name='tbb::detail::invoke(f, args) -> INVOKE<argc>(f, args)')
+    s = slice_ctor(PSC, r'lambda_scan_body\( const Value& identity, const Scan& scan, const ReverseJoin& rev_join \)', LS)
+    sliced.append('%s:%d lambda_scan_body constructor' % (PSC, s.line))
+    t = ctor_c(lrw, s, 'lambda_scan_body_ctor(struct lambda_scan_body* self, const Value* identity, const Scan* scan, const ReverseJoin* rev_join)', lorder, cname='lambda_scan_body')
+    t = refs(lrw, t, ['identity', 'scan', 'rev_join'])
+    lout.append(t)
+    s = slice_ctor(PSC, r'lambda_scan_body\( lambda_scan_body& b, split \)', LS)
+    sliced.append('%s:%d lambda_scan_body splitting constructor' % (PSC, s.line))
+    t = ctor_c(lrw, s, 'lambda_scan_body_split_ctor(struct lambda_scan_body* self, struct lambda_scan_body* b)', lorder, cname='lambda_scan_body')
+    bb = cxx2c.mask(t).find('{')
+    t = t[:bb] + lfields(t[bb:])
+    lout.append(t)
+    s = slice_block(PSC, r'void operator\(\)\( const Range& r, Tag tag \)', within=LS)
+    sliced.append('%s:%d lambda_scan_body::operator()' % (PSC, s.line))
+    t = 'void lambda_scan_body_call(struct lambda_scan_body* self, const Range* r, bool tag) ' + lfields(body_of(s.text))
+    t = refs(lrw, t, ['r'])
+    lout.append(t)
+    s = slice_block(PSC, r'void reverse_join\( lambda_scan_body& a \)', within=LS)
+    sliced.append('%s:%d lambda_scan_body::reverse_join' % (PSC, s.line))
+    lout.append('void lambda_scan_body_reverse_join(struct lambda_scan_body* self, struct lambda_scan_body* a) ' + lfields(body_of(s.text)))
+    s = slice_block(PSC, r'void assign\( lambda_scan_body& b \)', within=LS)
+    sliced.append('%s:%d lambda_scan_body::assign' % (PSC, s.line))
+    lout.append('void lambda_scan_body_assign(struct lambda_scan_body* self, struct lambda_scan_body* b) ' + lfields(body_of(s.text)))
+    common.write(ctx, 'lscan.inc', lrw.std('\n'.join(lout)) + '\n')
+    fired['lambda_scan_body'] = lrw.fired
+
+
 def extract(ctx):
     sliced, fired = [], {}
     rw = Rewriter('parallel_sort')
@@ -745,6 +1057,7 @@ def build(ctx):
     extract_detred(ctx, sliced, fired)
     extract_lambda(ctx, sliced, fired)
     extract_split_range(ctx, sliced, fired)
+    extract_scan(ctx, sliced, fired)
     C = os.path.join(HERE, 'c06.c')
     jobs = [
         Job('reduce.fold_tree', C, 'h_fold', route='RG', loops=True, nloops=1, defines=['FOLD'], target='fold_tree<TreeNodeType> (any tree depth, any number of concurrently finishing children)', source=PT,
@@ -765,8 +1078,17 @@ def build(ctx):
         Job('reduce.lambda.join', C, 'h_lambda_join', route='LF', defines=['LAMBDA'], target='lambda_reduce_body::join', source=PR),
         Job('reduce.lambda.call', C, 'h_lambda_call', route='LF', defines=['LAMBDA'], target='lambda_reduce_body::operator()', source=PR),
         Job('reduce.lambda.ctors', C, 'h_lambda_ctors', route='LF', defines=['LAMBDA'], target='lambda_reduce_body constructors (from identity; splitting)', source=PR),
-        Job('sort.split_range', C, 'h_split', route='LC', loops=True, nloops=3, defines=['SPLIT'], timeout=600, inputs=['IN_n', 'IN_q', 'IN_k0'],
+        Job('sort.split_range', C, 'h_split', route='LC', loops=True, nloops=3, defines=['SPLIT', 'ELEM=signed char'], solver='cadical', timeout=600, inputs=['IN_n', 'IN_q', 'IN_k0'],
             target='quick_sort_range::split_range + pseudo_median_of_nine + median_of_three + splitting constructor (any range size)', source=PS),
+        Job('scan.final_sum.execute', C, 'h_scan_final_execute', route='RG', defines=['SCAN'], target='final_sum::execute + finalize + release_parent (pass-2 leaf)', source=PSC),
+        Job('scan.final_sum.cancel', C, 'h_scan_final_cancel', route='RG', defines=['SCAN'], target='final_sum::cancel + finalize + release_parent', source=PSC),
+        Job('scan.sum_node.execute', C, 'h_scan_sum_execute', route='LF', defines=['SCAN'], target='sum_node::execute (pass 2) + create_child + prepare_for_execution + final_sum::finish_construction + final_sum::reverse_join', source=PSC),
+        Job('scan.sum_node.finish', C, 'h_scan_sum_finish', route='RG', defines=['SCAN'], target='sum_node::execute (children done) / cancel + finalize + release_parent', source=PSC),
+        Job('scan.finish_scan.execute', C, 'h_scan_finish_execute', route='RG', defines=['SCAN'], target='finish_scan::execute + finalize + release_parent (end of pass 1 for one node)', source=PSC),
+        Job('scan.start_scan.execute', C, 'h_scan_start_execute', route='RG', defines=['SCAN'], target='start_scan::execute (pass 1: stolen handling, leaf scan, split) + splitting constructor + sum_node/finish_scan/final_sum constructors + finalize', source=PSC),
+        Job('scan.cancel', C, 'h_scan_cancels', route='RG', defines=['SCAN'], target='start_scan::cancel, finish_scan::cancel + finalize + release_parent', source=PSC),
+        Job('scan.run', C, 'h_scan_run', route='LF', defines=['SCAN'], target='start_scan::run (pass 1, then pass 2 or the single-sweep shortcut) + root constructors', source=PSC),
+        Job('scan.lambda_body', C, 'h_lscan', route='LF', defines=['LSCAN'], target='lambda_scan_body: reverse_join, operator(), assign, constructors', source=PSC),
         Job('reduce.dispatch', C, 'h_reduce_dispatch', route='LF', defines=['DISPATCH'], target='all %d public overloads of parallel_reduce / parallel_deterministic_reduce' % nov, source=PR, inputs=['IN_overload'],
             must_have=['parallel_deterministic_reduce(Range, Value, RealBody, Reduction, static_partitioner, task_group_context) ends in the runner']),
         Job('sort.probe_coverage', C, 'h_probe', route='LC', loops=True, nloops=1, unwind=12, timeout=600, defines=['SORT'],
@@ -776,19 +1098,39 @@ def build(ctx):
     ]
     return {
         'jobs': jobs, 'sliced': sliced, 'fired': fired,
-        'trusted': ['parallel_for applies the probe body to chunks that tile the given range (C05) -- the stub runs the body on one arbitrary chunk containing the ghost pair', 'do_parallel_quick_sort / std::sort sort (stubs)',
-                    'the comparator is a strict weak order given as an arbitrary relation on positions (stub)'],
-        'drops': ['RandomAccessIterator := int*', 'Compare bound (calls become COMP_AT on iterator positions)', 'task_group_context -> ghost cancelled flag'],
-        'not_decided': ['parallel_scan', 'parallel_reduce / parallel_deterministic_reduce join order', 'quick_sort_range::split_range partition correctness', 'std::sort on the leaves', 'dependence on the scheduler (C01)'],
-        'assumptions': ['a probe chunk has fewer than 2^31 elements (the int counter of the pretest body; affects only the cancellation polling period)'],
+        'trusted': [
+            'parallel_for applies the probe body to chunks that tile the given range (C05) -- the stub runs the body on one arbitrary chunk containing the ghost pair', 'do_parallel_quick_sort / std::sort sort (stubs)',
+            'sort.probe_coverage: the comparator is an arbitrary relation on positions (stub); sort.split_range, sort.median_of_three: std::less on the element values',
+            'user Body / Range operations are stubs: Body(b, split()) yields a fresh body, Range(r, split()) moves the right part of r into the new range and leaves the left part in r (blocked_range splitting itself: C05), b.join / reverse_join / assign / operator() only record their operands',
+            'partitioner: Partition::execute calls run_body/offer_work on the task it is given (stub; the execute loops are C05); check_being_stolen, note_affinity, should_execute_range, is_divisible return arbitrary values; spawn_task / spawn make the task runnable on any thread at once',
+            'small_object_allocator::new_object<T>(args) = allocation (never fails) followed by the SLICED constructor of T; delete_object / deallocate / self_destroy destroy and free the object (stubs that poison it)',
+            'r1::execute_and_wait runs the task tree to completion and returns when the wait_context reaches 0 (stub; scheduler: C01); wait_context::release/reserve are counters',
+            'reduce.execute / reduce.offer_work / finalize use fold_tree through its contract (job reduce.fold_tree); fold_tree uses join through a stub checked by reduce.join / detreduce.join',
+            'scan.*: each job takes as its rely the node-local tree invariant that the other scan jobs establish as their guarantee (stated in c06.c where each pre-state is built); the induction over the whole tree and over the two passes is the usual rely/guarantee argument and is not itself mechanised',
+            'is_stolen(ed) == false means the task runs on the thread that created it, after everything that thread spawned later (LIFO): the left sibling has then completed (scheduler property, C01)'],
+        'drops': ['RandomAccessIterator := int* (probe, median), signed char* (split_range)', 'Compare bound (calls become COMP_AT on iterator positions)', 'task_group_context -> ghost cancelled flag',
+                  'template parameters bound: Range, Body, Partitioner, Value, RealBody, Reduction, Scan, ReverseJoin := opaque structs; TreeNodeType := the C view of the tree node',
+                  'reference parameters and reference / reference_wrapper members -> pointers; constructor init lists -> INIT_<member>_<argc>() in base-then-declared order (harvested from the class text), default member initialisers included',
+                  'variadic offer_work_impl<Args...> instantiated for the argument packs its two callers pass (checked against the class text)',
+                  'ITT notifications, poison_pointer and poison checks (no-ops in release builds) -> RG_NOP()', 'memory orders (SC assumed)', 'finish_scan::execute debug assertion on the child count of the result node -> RG_NOP()'],
+        'not_decided': ['the induction that glues the per-function contracts into the whole-algorithm statement (result == sequential fold / scan) is a paper argument over the stated node-local invariants, not a checked proof',
+                        'partitioner execute / work_balance loops and the range pool that decide WHERE ranges are cut (C05) and affinity replay',
+                        'reduction_tree_node destructor (destroys the zombie body), exception paths (a body that throws), task_group_context cancellation propagation (C04)',
+                        'parallel_scan public overloads (dispatch to start_scan::run) and the pre-C++20 concept checks', 'do_parallel_quick_sort / quick_sort_body recursion: that the two subranges are sorted recursively and std::sort sorts the leaves',
+                        'pseudo_median_of_nine picks a good pivot (only: any in-range pivot) ', 'comparators other than std::less on a totally ordered element type (a general strict weak ordering with incomparable elements)',
+                        'memory reclamation beyond "freed once, not used after": leaks', 'dependence on the scheduler (C01): that spawned tasks run exactly once, that is_stolen is truthful'],
+        'assumptions': ['a probe chunk has fewer than 2^31 elements (the int counter of the pretest body; affects only the cancellation polling period)',
+                        'reference counts stay below INT_MAX (fold_tree) / 1000 pending children per scan task in the RG census (the real trees have 2)',
+                        'tree depth <= 2^12 in reduce.fold_tree, split_range sizes <= 2^12, scan indices <= 2^40 (symbolic below these bounds)',
+                        'sequentially consistent atomics; the only shared words are m_ref_count (reduce), ref_count / m_right_zombie / m_left_sum (scan); all other fields are touched by one thread at a time (ownership passes with the count reaching 0 or with spawn)',
+                        'split_range is proved for RandomAccessIterator = signed char* and std::less<signed char> (with int the same proof takes 8 min; the code is type-generic)'],
     }
 
 
 def replay(ctx, jobname, failure):
-    if not jobname.startswith('sort.') or jobname == 'sort.split_range':
-        return {'reproduced': False, 'detail': 'no native recipe yet for ' + jobname}
+    """native recipes on the REAL headers (c06_replay.cpp picks the recipe from the job name: sort.*, reduce.*/detreduce.*, scan.*)"""
     exe = native.build([os.path.join(HERE, 'c06_replay.cpp')], os.path.join(ctx.work, 'c06_replay'), link_tbb=True)
-    rc, out = native.run([exe, jobname], timeout=120)
+    rc, out = native.run([exe, jobname], timeout=90)
     rep = {'cmd': exe + ' ' + jobname, 'rc': rc, 'output': out[-1500:], 'reproduced': False, 'detail': 'native search found no failing input'}
     m = re.search(r'REPRODUCED (.*)', out)
     if m:
@@ -796,4 +1138,9 @@ def replay(ctx, jobname, failure):
         rep['detail'] = m.group(1)
         w = re.search(r'class=(\S+)', m.group(1))
         rep['witness_class'] = w.group(1) if w else None
+    elif rc != 0:
+        # on the unmodified tree every recipe ends within seconds with exit code 0
+        rep['reproduced'] = True
+        rep['witness_class'] = 'hang-or-crash'
+        rep['detail'] = 'class=hang-or-crash the native recipe for %s on the real library %s' % (jobname, 'did not finish within 90 s' if rc == 'timeout' else 'died with exit status %s' % rc)
     return rep
